@@ -6,6 +6,7 @@ import (
 	"fmt"
 	"go/types"
 	"os"
+	"os/exec"
 	"path/filepath"
 	"regexp"
 	"runtime"
@@ -31,22 +32,29 @@ func main() {
 	}
 	switch os.Args[1] {
 	case "check":
-		os.Exit(cmdCheck(os.Args[2:]))
+		exit(cmdCheck(os.Args[2:]))
 	case "verify":
-		os.Exit(cmdVerify(os.Args[2:]))
+		exit(cmdVerify(os.Args[2:]))
 	case "list":
-		os.Exit(cmdList(os.Args[2:]))
+		exit(cmdList(os.Args[2:]))
 	case "ext":
-		os.Exit(cmdExt(os.Args[2:]))
+		exit(cmdExt(os.Args[2:]))
 	case "impls":
-		os.Exit(cmdImpls(os.Args[2:]))
+		exit(cmdImpls(os.Args[2:]))
+	case "genrt":
+		exit(cmdGenRT(os.Args[2:]))
 	case "replay":
-		os.Exit(cmdReplay(os.Args[2:]))
+		exit(cmdReplay(os.Args[2:]))
 	case "selftest":
-		os.Exit(cmdSelftest(os.Args[2:]))
+		exit(cmdSelftest(os.Args[2:]))
 	}
 	fmt.Fprintln(os.Stderr, "unknown command", os.Args[1])
 	os.Exit(2)
+}
+
+func exit(rc int) {
+	cleanupScratch()
+	os.Exit(rc)
 }
 
 func load(repo string) *Loaded {
@@ -64,7 +72,14 @@ func load(repo string) *Loaded {
 
 func solveAll(obs []*Oblig, timeoutS int, mode string) {
 	var wg sync.WaitGroup
-	sem := make(chan struct{}, runtime.NumCPU())
+	par := runtime.NumCPU()
+	if k, _ := strconv.Atoi(os.Getenv("GOVC_SHARDS")); k > 1 {
+		par = par / k
+		if par < 2 {
+			par = 2
+		}
+	}
+	sem := make(chan struct{}, par)
 	// scripts are built sequentially (term tables are not thread-safe for construction, reading is)
 	for _, o := range obs {
 		if o.Status != "" {
@@ -335,30 +350,47 @@ type Evidence struct {
 	Violations  int                    `json:"violations"`
 }
 
-func cmdCheck(args []string) int {
-	fs := flag.NewFlagSet("check", flag.ExitOnError)
-	tier := fs.String("tier", "quick", "quick|thorough")
-	repo := fs.String("repo", "/repo", "repository directory")
-	verbose := fs.Bool("v", false, "verbose")
-	noEvidence := fs.Bool("no-evidence", false, "do not write the evidence file (selftest)")
-	if len(args) < 1 {
-		fmt.Fprintln(os.Stderr, "check <Cxx>")
-		return 2
-	}
-	prop := args[0]
-	fs.Parse(args[1:])
-	if t := os.Getenv("VERIF_TIER"); t == "quick" || t == "thorough" {
-		*tier = t
-	}
-	seed, _ := strconv.Atoi(os.Getenv("VERIF_SEED"))
-	start := time.Now()
-	L := load(*repo)
-	db := L.Contracts
+// Partial is what one shard of a check reports to the coordinating process.
+type Partial struct {
+	Lines      []string               `json:"lines"`
+	Stdout     []string               `json:"stdout"`
+	NObl       int                    `json:"nobl"`
+	NDis       int                    `json:"ndis"`
+	NKnown     int                    `json:"nknown"`
+	Violations int                    `json:"violations"`
+	ByBackend  map[string]int         `json:"by_backend"`
+	SolverS    float64                `json:"solver_s"`
+	MaxQ       float64                `json:"max_q"`
+	Covers     int                    `json:"covers"`
+	Funcs      []string               `json:"funcs"`
+	Inlined    []string               `json:"inlined"`
+	Assumed    []string               `json:"assumed"`
+	OOS        []string               `json:"oos"`
+	Samples    []map[string]interface{} `json:"samples"`
+	Known      []string               `json:"known"`
+	Instances  int                    `json:"instances"`
+	Slow       []string               `json:"slow"`
+	HasDecl    bool                   `json:"has_decl"`
+	Min        int                    `json:"min"`
+	HasHook    bool                   `json:"has_hook"`
+	ContractErrs int                  `json:"contract_errs"`
+}
 
+// runShard verifies the functions of one shard (index i of n, by position in the contract order) and classifies
+// the results; shard 0 also runs the property's whole-program hook and reports contract errors.
+func runShard(prop, repo, tier string, si, sn int) *Partial {
+	L := load(repo)
+	db := L.Contracts
 	var results []*FuncResult
 	var all []*Oblig
+	idx := 0
 	for _, fc := range db.Order {
 		if !hasProp(fc.Props, prop) || fc.Trusted {
+			continue
+		}
+		mine := idx%sn == si
+		idx++
+		if !mine {
 			continue
 		}
 		r := verifyFunc(L, fc.Fn, fc)
@@ -373,18 +405,21 @@ func cmdCheck(args []string) int {
 			all = append(all, o)
 		}
 	}
+	P := &Partial{ByBackend: map[string]int{}}
 	if hook, ok := propHooks[prop]; ok {
-		all = append(all, hook(L)...)
+		P.HasHook = true
+		if si == 0 {
+			all = append(all, hook(L)...)
+		}
 	}
 	timeout := 10
 	mode := "first"
-	if *tier == "thorough" {
+	if tier == "thorough" {
 		timeout = 120
 		mode = "agree"
 	}
 	solveAll(all, timeout, mode)
 	groups := groupObligs(all)
-
 	findings := loadFindings()
 	fmap := map[string]*Finding{}
 	for _, f := range findings {
@@ -392,90 +427,79 @@ func cmdCheck(args []string) int {
 			fmap[f.Obligation] = f
 		}
 	}
-	violations := 0
-	var lines []string
-	// contract drift / parse errors and out-of-subset functions are failures of named obligations
 	type synthetic struct{ name, detail string }
 	var synth []synthetic
-	for _, e := range db.Errors {
-		synth = append(synth, synthetic{"contracts/" + sanitize(e), e})
+	if si == 0 {
+		for _, e := range db.Errors {
+			synth = append(synth, synthetic{"contracts/" + sanitize(e), e})
+		}
+		P.ContractErrs = len(db.Errors)
 	}
 	for _, r := range results {
 		for _, e := range r.Errs {
 			synth = append(synth, synthetic{r.Key + "/engine/not-verified", e})
 		}
 	}
-	nObl, nDis, nKnown := 0, 0, 0
-	byBackend := map[string]int{}
-	var solverS, maxQ float64
-	covers := 0
+	type sl struct {
+		n string
+		s float64
+	}
+	var sls []sl
 	for _, g := range groups {
 		for _, o := range g.Instances {
-			solverS += o.Seconds
-			if o.Seconds > maxQ {
-				maxQ = o.Seconds
+			P.SolverS += o.Seconds
+			if o.Seconds > P.MaxQ {
+				P.MaxQ = o.Seconds
 			}
+			sls = append(sls, sl{g.Name, o.Seconds})
 		}
 		if g.Class == "cover" {
 			if g.Status == "proved" {
-				covers++
+				P.Covers++
 			} else {
-				fmt.Printf("VACUOUS: %s (%s): preconditions unsatisfiable or undecided\n", g.Name, g.Status)
-				violations++
-				lines = append(lines, reportViolation(L, prop, g, *repo))
+				P.Stdout = append(P.Stdout, fmt.Sprintf("VACUOUS: %s (%s): preconditions unsatisfiable or undecided", g.Name, g.Status))
+				P.Violations++
+				P.Lines = append(P.Lines, reportViolation(L, prop, g, repo))
 			}
 			continue
 		}
 		if f, ok := fmap[g.Name]; ok {
-			f.used = true
 			g.Known = f
 			if g.Status == "proved" {
-				// a listed finding that no longer fails: report, do not fail the check
-				fmt.Printf("NOTE: known finding no longer reproduces: property=%s %s\n", prop, g.Name)
-				nObl++
-				nDis++
-				byBackend[g.Backend]++
+				P.Stdout = append(P.Stdout, fmt.Sprintf("NOTE: known finding no longer reproduces: property=%s %s", prop, g.Name))
+				P.NObl++
+				P.NDis++
+				P.ByBackend[g.Backend]++
 			} else {
-				nKnown++
-				fmt.Printf("KNOWN-FINDING: property=%s %s %s\n", prop, g.Name, f.Note)
+				P.NKnown++
+				P.Known = append(P.Known, g.Name)
+				P.Stdout = append(P.Stdout, fmt.Sprintf("KNOWN-FINDING: property=%s %s %s", prop, g.Name, f.Note))
 			}
 			continue
 		}
-		nObl++
+		P.NObl++
 		if g.Status == "proved" {
-			nDis++
-			byBackend[g.Backend]++
+			P.NDis++
+			P.ByBackend[g.Backend]++
 			continue
 		}
-		violations++
-		lines = append(lines, reportViolation(L, prop, g, *repo))
+		P.Violations++
+		P.Lines = append(P.Lines, reportViolation(L, prop, g, repo))
 	}
-	for _, s := range synth {
-		nObl++
-		violations++
-		g := &OblGroup{Name: s.name, Class: "engine", Status: "undecided", Clause: s.detail}
-		lines = append(lines, reportViolation(L, prop, g, *repo))
+	for _, sy := range synth {
+		P.NObl++
+		P.Violations++
+		g := &OblGroup{Name: sy.name, Class: "engine", Status: "undecided", Clause: sy.detail}
+		P.Lines = append(P.Lines, reportViolation(L, prop, g, repo))
 	}
-	// floor
-	if pd := db.Props[prop]; pd != nil && nObl+nKnown < pd.Min {
-		violations++
-		g := &OblGroup{Name: "floor/" + prop, Class: "engine", Status: "undecided", Clause: fmt.Sprintf("only %d obligations generated, floor is %d (contracts missing or functions lost)", nObl+nKnown, pd.Min)}
-		lines = append(lines, reportViolation(L, prop, g, *repo))
-	} else if pd == nil || len(results) == 0 && propHooks[prop] == nil {
-		violations++
-		g := &OblGroup{Name: "floor/" + prop, Class: "engine", Status: "undecided", Clause: "no property declaration / no functions under contract for this property"}
-		lines = append(lines, reportViolation(L, prop, g, *repo))
+	sort.Slice(sls, func(i, j int) bool { return sls[i].s > sls[j].s })
+	for i := 0; i < len(sls) && i < 8; i++ {
+		P.Slow = append(P.Slow, fmt.Sprintf("%.2fs %s", sls[i].s, sls[i].n))
 	}
-	for _, l := range lines {
-		fmt.Println(l)
-	}
-	wall := time.Since(start).Seconds()
-	// evidence
-	var fnames, inlined, assumed, oos []string
 	inl := map[string]bool{}
 	asm := map[string]bool{}
 	for _, r := range results {
-		fnames = append(fnames, r.Key)
+		P.Funcs = append(P.Funcs, r.Key)
 		for _, x := range r.Inlined {
 			inl[x] = true
 		}
@@ -483,72 +507,210 @@ func cmdCheck(args []string) int {
 			asm[x] = true
 		}
 		for _, e := range r.Errs {
-			oos = append(oos, r.Key+": "+e)
+			P.OOS = append(P.OOS, r.Key+": "+e)
 		}
 	}
 	for k := range inl {
-		inlined = append(inlined, k)
+		P.Inlined = append(P.Inlined, k)
 	}
 	for k := range asm {
-		assumed = append(assumed, k)
+		P.Assumed = append(P.Assumed, k)
 	}
-	sort.Strings(inlined)
-	sort.Strings(assumed)
-	var samples []map[string]interface{}
-	step := len(groups)/6 + 1
+	step := len(groups)/3 + 1
 	for i := 0; i < len(groups); i += step {
 		g := groups[i]
-		samples = append(samples, map[string]interface{}{"obligation": g.Name, "clause": g.Clause, "result": g.Status, "backend": g.Backend, "seconds": round3(g.Seconds), "paths": len(g.Instances), "at": g.Pos})
+		P.Samples = append(P.Samples, map[string]interface{}{"obligation": g.Name, "clause": trunc(g.Clause, 300), "result": g.Status, "backend": g.Backend, "seconds": round3(g.Seconds), "paths": len(g.Instances), "at": g.Pos})
 	}
-	var known []string
-	for _, g := range groups {
-		if g.Known != nil && g.Status != "proved" {
-			known = append(known, g.Name)
+	P.Instances = len(all)
+	if pd := db.Props[prop]; pd != nil {
+		P.HasDecl = true
+		P.Min = pd.Min
+	}
+	return P
+}
+
+func cmdCheck(args []string) int {
+	fs := flag.NewFlagSet("check", flag.ExitOnError)
+	tier := fs.String("tier", "quick", "quick|thorough")
+	repo := fs.String("repo", "/repo", "repository directory")
+	noEvidence := fs.Bool("no-evidence", false, "do not write the evidence file (selftest)")
+	shard := fs.String("shard", "", "internal: i/n")
+	shardOut := fs.String("shard-out", "", "internal: file for the shard's result")
+	nshards := fs.Int("shards", 0, "number of worker processes (default: by number of functions)")
+	if len(args) < 1 {
+		fmt.Fprintln(os.Stderr, "check <Cxx>")
+		return 2
+	}
+	prop := args[0]
+	fs.Parse(args[1:])
+	if t := os.Getenv("VERIF_TIER"); t == "quick" || t == "thorough" {
+		*tier = t
+	}
+	seed, _ := strconv.Atoi(os.Getenv("VERIF_SEED"))
+	start := time.Now()
+	if *shard != "" {
+		var si, sn int
+		fmt.Sscanf(*shard, "%d/%d", &si, &sn)
+		P := runShard(prop, *repo, *tier, si, sn)
+		data, _ := json.Marshal(P)
+		os.WriteFile(*shardOut, data, 0o644)
+		return 0
+	}
+	// decide the number of shards from the number of functions under contract for this property
+	n := *nshards
+	if n <= 0 {
+		L := load(*repo)
+		cnt := 0
+		for _, fc := range L.Contracts.Order {
+			if hasProp(fc.Props, prop) && !fc.Trusted {
+				cnt++
+			}
 		}
+		n = cnt / 25
+		if n < 1 {
+			n = 1
+		}
+		if n > 8 {
+			n = 8
+		}
+	}
+	var parts []*Partial
+	if n == 1 {
+		parts = append(parts, runShard(prop, *repo, *tier, 0, 1))
+	} else {
+		self, _ := os.Executable()
+		dir := scratch()
+		var wg sync.WaitGroup
+		res := make([]*Partial, n)
+		errs := make([]string, n)
+		for i := 0; i < n; i++ {
+			wg.Add(1)
+			go func(i int) {
+				defer wg.Done()
+				out := filepath.Join(dir, fmt.Sprintf("shard%d.json", i))
+				cmd := exec.Command(self, "check", prop, "--tier", *tier, "--repo", *repo, "--shard", fmt.Sprintf("%d/%d", i, n), "--shard-out", out)
+				cmd.Env = append(os.Environ(), fmt.Sprintf("GOVC_SHARDS=%d", n))
+				o, err := cmd.CombinedOutput()
+				data, rerr := os.ReadFile(out)
+				if err != nil || rerr != nil {
+					errs[i] = fmt.Sprintf("shard %d failed: %v %v %s", i, err, rerr, trunc(string(o), 1500))
+					return
+				}
+				var P Partial
+				if json.Unmarshal(data, &P) != nil {
+					errs[i] = fmt.Sprintf("shard %d: bad result", i)
+					return
+				}
+				res[i] = &P
+			}(i)
+		}
+		wg.Wait()
+		for i := 0; i < n; i++ {
+			if res[i] == nil {
+				fmt.Println("ENGINE ERROR:", errs[i])
+				g := &OblGroup{Name: fmt.Sprintf("engine/shard%d", i), Class: "engine", Status: "undecided", Clause: errs[i]}
+				fmt.Println(reportViolation(nil, prop, g, *repo))
+				return 1
+			}
+			parts = append(parts, res[i])
+		}
+	}
+	// aggregate
+	A := &Partial{ByBackend: map[string]int{}}
+	for _, P := range parts {
+		A.Lines = append(A.Lines, P.Lines...)
+		A.Stdout = append(A.Stdout, P.Stdout...)
+		A.NObl += P.NObl
+		A.NDis += P.NDis
+		A.NKnown += P.NKnown
+		A.Violations += P.Violations
+		for k, v := range P.ByBackend {
+			A.ByBackend[k] += v
+		}
+		A.SolverS += P.SolverS
+		if P.MaxQ > A.MaxQ {
+			A.MaxQ = P.MaxQ
+		}
+		A.Covers += P.Covers
+		A.Funcs = append(A.Funcs, P.Funcs...)
+		A.Inlined = append(A.Inlined, P.Inlined...)
+		A.Assumed = append(A.Assumed, P.Assumed...)
+		A.OOS = append(A.OOS, P.OOS...)
+		A.Samples = append(A.Samples, P.Samples...)
+		A.Known = append(A.Known, P.Known...)
+		A.Instances += P.Instances
+		A.Slow = append(A.Slow, P.Slow...)
+		A.HasDecl = A.HasDecl || P.HasDecl
+		A.HasHook = A.HasHook || P.HasHook
+		if P.Min > A.Min {
+			A.Min = P.Min
+		}
+	}
+	sort.Strings(A.Funcs)
+	A.Inlined = uniqSorted(A.Inlined)
+	A.Assumed = uniqSorted(A.Assumed)
+	sort.Strings(A.Stdout)
+	for _, l := range A.Stdout {
+		fmt.Println(l)
+	}
+	violations := A.Violations
+	lines := A.Lines
+	if A.HasDecl && A.NObl+A.NKnown < A.Min {
+		violations++
+		g := &OblGroup{Name: "floor/" + prop, Class: "engine", Status: "undecided", Clause: fmt.Sprintf("only %d obligations generated, floor is %d (contracts missing or functions lost)", A.NObl+A.NKnown, A.Min)}
+		lines = append(lines, reportViolation(nil, prop, g, *repo))
+	} else if !A.HasDecl || len(A.Funcs) == 0 && !A.HasHook {
+		violations++
+		g := &OblGroup{Name: "floor/" + prop, Class: "engine", Status: "undecided", Clause: "no property declaration / no functions under contract for this property"}
+		lines = append(lines, reportViolation(nil, prop, g, *repo))
+	}
+	sort.Strings(lines)
+	for _, l := range lines {
+		fmt.Println(l)
+	}
+	if os.Getenv("GOVC_SLOW") != "" {
+		sort.Slice(A.Slow, func(i, j int) bool { return A.Slow[i] > A.Slow[j] })
+		for i := 0; i < len(A.Slow) && i < 12; i++ {
+			fmt.Println("SLOW", A.Slow[i])
+		}
+	}
+	wall := time.Since(start).Seconds()
+	if len(A.Samples) > 8 {
+		A.Samples = A.Samples[:8]
 	}
 	ev := Evidence{PropertyID: prop, Tier: *tier, Seed: seed, Level: "proof", WallS: round3(wall), Violations: violations,
 		Coverage: map[string]interface{}{
-			"obligations": nObl, "discharged": nDis, "known_findings": nKnown, "known_finding_obligations": known,
+			"obligations": A.NObl, "discharged": A.NDis, "known_findings": A.NKnown, "known_finding_obligations": A.Known,
 			"checker_cmd":              "bin/govc check " + prop + " --tier " + *tier,
-			"trusted_base":             trustedBase(assumed),
-			"functions_under_contract": fnames, "by_backend": byBackend, "solver_s": round3(solverS), "max_query_s": round3(maxQ),
-			"covers_sat": covers, "inlined": inlined, "out_of_subset": oos, "assumed_contracts": assumed, "bounded": []string{},
-			"samples": samples, "path_instances": len(all),
+			"trusted_base":             trustedBase(A.Assumed),
+			"functions_under_contract": A.Funcs, "by_backend": A.ByBackend, "solver_s": round3(A.SolverS), "max_query_s": round3(A.MaxQ),
+			"covers_sat": A.Covers, "inlined": A.Inlined, "out_of_subset": A.OOS, "assumed_contracts": A.Assumed, "bounded": []string{},
+			"samples": A.Samples, "path_instances": A.Instances, "worker_processes": len(parts),
 			"integers": "bit-vectors of the Go width (int/uint = 64 bit); no integer is treated as mathematical",
 		},
-		Assumptions: propAssumptions(prop, assumed),
+		Assumptions: propAssumptions(prop, A.Assumed),
 	}
 	if !*noEvidence {
 		os.MkdirAll(filepath.Join(verifDir, "evidence"), 0o755)
 		data, _ := json.MarshalIndent(ev, "", " ")
 		os.WriteFile(filepath.Join(verifDir, "evidence", prop+".json"), data, 0o644)
 	}
-	if os.Getenv("GOVC_SLOW") != "" {
-		type sl struct {
-			n string
-			s float64
-		}
-		var sls []sl
-		for _, g := range groups {
-			for _, o := range g.Instances {
-				sls = append(sls, sl{g.Name, o.Seconds})
-			}
-		}
-		sort.Slice(sls, func(i, j int) bool { return sls[i].s > sls[j].s })
-		for i := 0; i < len(sls) && i < 12; i++ {
-			fmt.Printf("SLOW %.2fs %s\n", sls[i].s, sls[i].n)
-		}
-	}
-	fmt.Printf("%s: %d obligations, %d discharged, %d known findings, %d violations, %d functions, %.1fs\n", prop, nObl, nDis, nKnown, violations, len(results), wall)
-	if *verbose {
-		for _, g := range groups {
-			fmt.Printf("  %-9s %-12s %s   [%s]\n", g.Status, g.Backend, g.Name, g.Clause)
-		}
-	}
+	fmt.Printf("%s: %d obligations, %d discharged, %d known findings, %d violations, %d functions, %.1fs\n", prop, A.NObl, A.NDis, A.NKnown, violations, len(A.Funcs), wall)
 	if violations > 0 {
 		return 1
 	}
 	return 0
+}
+
+func uniqSorted(xs []string) []string {
+	sort.Strings(xs)
+	var out []string
+	for i, x := range xs {
+		if i == 0 || x != xs[i-1] {
+			out = append(out, x)
+		}
+	}
+	return out
 }
 
 func round3(f float64) float64 { return float64(int(f*1000+0.5)) / 1000 }
